@@ -99,8 +99,8 @@ CHECKS = {
         ref="DESIGN.md §4 C09",
     ),
     "C10": dict(
-        text="TLC checks the run-loop model MDRun exhaustively (design constants) over cadences x run lengths x checkpoint cadences with up to 2 (quick) / 3 (thorough) crashes of both kinds (exception, kill) at every program point: checkpoint never partial, never ahead of what is durable, final HDF5 = reference, every XYZ frame exactly once, liveness. The crash schedules TLC explored are exported and replayed on the real run loop (forked children, armed hooks, real run_from_checkpoint, repeated crashes); every recorded trace with the driver's disk projection after each crash is validated against the same model by TLC (MDRunTrace). Tier B repeats this with the real electronic structure for every engine; row values are compared with an uninterrupted reference run.",
-        note="Process death only (no power loss; the code never fsyncs). Tier A uses a history-sensitive stub electronic structure; tier B the real one on small molecules with tolerance 1e-6 (bitwise observed). Crash points are the hook-addressable ones plus syscall-level kills in the thorough tier. The model follows the first molid's files; others are compared at the end.",
+        text="TLC checks the run-loop model MDRun exhaustively (design constants) over cadences x run lengths x checkpoint cadences with up to 2 (quick) / 3 (thorough) crashes of both kinds (exception, kill) at every program point: checkpoint never partial, never ahead of what is durable, final HDF5 = reference, every XYZ frame exactly once, liveness. The crash schedules TLC explored are exported and replayed on the real run loop (forked children, armed hooks, real run_from_checkpoint, repeated crashes); every recorded trace with the driver's disk projection after each crash is validated against the same model by TLC (MDRunTrace). Tier B repeats this with the real electronic structure for every engine (incl. surface hopping with nonadiabatic cadences and XYZ frames between checkpoints); row values are compared with an uninterrupted reference run, real processes are killed inside write / rename system calls, and a state-completeness audit compares every attribute of the engine and molecule objects one loop iteration after a resume with the uninterrupted run (binding of the root module Pyseqm: EngineStateExact).",
+        note="Process death only (no power loss; the code never fsyncs). Tier A uses a history-sensitive stub electronic structure; tier B the real one on small molecules with tolerance 1e-6 (bitwise observed). Crash points are the hook-addressable ones plus syscall-level kills. The thorough tier model-checks the full lattice with up to 3 crashes on all cores; schedules with two crashes are exported (one TLC worker) from a medium lattice, with three from a small one. The model follows the first molid's files; others are compared at the end.",
         tech="explicit TLA+ model (MDRun) checked by TLC; TLC-exported crash schedules replayed on the code; recorded traces validated by TLC against the model",
         ref="DESIGN.md §4 C10",
     ),
